@@ -1,4 +1,5 @@
 use poulpy_hal::{
+    DEFAULTALIGN,
     api::{ScratchAvailable, VecZnxNormalize, VecZnxNormalizeTmpBytes},
     layouts::{Backend, Module, Scratch, ZnxView, ZnxViewMut},
 };
@@ -14,7 +15,8 @@ pub(crate) trait LWEDecryptDefault<BE: Backend>: Sized + VecZnxNormalize<BE> + V
     where
         A: LWEInfos,
     {
-        let lvl_0: usize = LWEPlaintext::bytes_of(infos.size());
+        // The next take re-aligns to DEFAULTALIGN: pay for the padding after this 8-bytes-per-limb buffer.
+        let lvl_0: usize = LWEPlaintext::bytes_of(infos.size()).next_multiple_of(DEFAULTALIGN);
         let lvl_1: usize = self.vec_znx_normalize_tmp_bytes();
 
         lvl_0 + lvl_1
